@@ -200,6 +200,8 @@ Inductive case :=
         (pifs : intfs) (allow : bool) (egress : list N)
         (impl_ok : list (option bool))    (* per step: error == nil; None = panic *)
         (impl_dump : dump)
+        (impl_prop : list (N * option (list N)))
+| CWire (loc : ia) (t : list (N * list ia)) (pifs : intfs) (allow : bool)
         (impl_prop : list (N * option (list N))).
 
 Definition step_ok (c : cfg) (st : store) (b : beacon) : option bool :=
@@ -271,13 +273,62 @@ Definition no_panic (l : list (option bool)) : bool :=
     received (seg.BeaconFromPB rejects them), the property does not speak about them *)
 Definition in_scope (c : cfg) (hist : list beacon) : bool :=
   kids_consistent hist && bits_disjoint (pols c)
-  && forallb (fun b => negb (Nat.eqb (length (b_hops b)) 0)) hist.
+  && forallb (fun b => negb (Nat.eqb (length (b_hops b)) 0)) hist
+  (* one verdict per AS entry (audit follow-up: otherwise "all signatures verify" is vacuous) *)
+  && forallb (fun b => Nat.eqb (length (b_sigs b)) (length (b_hops b))) hist.
 
 Definition oracle (c : cfg) (hist : list beacon) (pifs : intfs) (allow : bool)
                   (ok : list (option bool)) (d : dump) (pr : list (N * option (list N))) : bool :=
   if negb (in_scope c hist) then true
   else no_panic ok && forallb (row_ok c hist) d && stored_all c hist d
        && forallb (prop_ok hist pifs allow d) pr.
+
+(** ---------------- audit follow-up: the beacon as it leaves the AS.
+    [Extend] appends the local AS entry before the beacon is sent to the neighbour
+    behind the egress interface, so on the wire the ASes are [hops ++ [local] ++ [nb]].
+    [Propagator.shouldIgnore] / [beacon.FilterLoop] look at [hops ++ [nb]] only. *)
+Definition on_wire (c : cfg) (hops : list ia) (nb : ia) : list ia :=
+  hops ++ [local c] ++ (if ia_zero nb then [] else [nb]).
+
+Definition wire_ok (c : cfg) (hist : list beacon) (pifs : intfs) (allow : bool)
+                   (p : N * option (list N)) : bool :=
+  match lookup pifs (fst p), snd p with
+  | Some (_, nb), Some kids =>
+    forallb (fun kid => match hops_of_kid hist kid with
+                        | Some hops => negb (filter_loops (on_wire c hops nb) allow)
+                        | None => false end) kids
+  | _, _ => true
+  end.
+
+(** the defect class, from the input alone: some received beacon would loop
+    through the local AS on some egress interface although the code's check passes *)
+Definition known (c : cfg) (hist : list beacon) (pifs : intfs) (allow : bool) (egress : list N) : bool :=
+  existsb (fun b => existsb (fun e =>
+    match lookup pifs e with
+    | Some (_, nb) => filter_loops (on_wire c (hops_of b) nb) allow && negb (should_ignore allow (hops_of b) nb)
+    | None => false end) egress) hist.
+
+(** the full property oracle: [oracle] and no loop on the wire *)
+Definition oracle_full (c : cfg) (hist : list beacon) (pifs : intfs) (allow : bool)
+                  (ok : list (option bool)) (d : dump) (pr : list (N * option (list N))) : bool :=
+  oracle c hist pifs allow ok d pr
+  && (negb (in_scope c hist) || forallb (wire_ok c hist pifs allow) pr).
+
+(** the wire-level part as a case of its own (so that the open finding does not
+    mask anything else in a history case): the runner supplies the hop IAs of the
+    beacons it saw handed out, keyed by segment-ID number *)
+Fixpoint assoc_kid (t : list (N * list ia)) (kid : N) : option (list ia) :=
+  match t with [] => None | (k, v) :: r => if k =? kid then Some v else assoc_kid r kid end.
+Definition kid_table (hist : list beacon) : list (N * list ia) := map (fun b => (b_kid b, hops_of b)) hist.
+Definition wire_ok_t (loc : ia) (t : list (N * list ia)) (pifs : intfs) (allow : bool)
+                     (p : N * option (list N)) : bool :=
+  match lookup pifs (fst p), snd p with
+  | Some (_, nb), Some kids =>
+    forallb (fun kid => match assoc_kid t kid with
+                        | Some hops => negb (filter_loops (hops ++ [loc] ++ (if ia_zero nb then [] else [nb])) allow)
+                        | None => false end) kids
+  | _, _ => true
+  end.
 
 Definition check (x : case) : N :=
   match x with
@@ -290,6 +341,7 @@ Definition check (x : case) : N :=
        && list_eqb d_eqb (dump_of st) idump
        && list_eqb prop_eqb (propagate pifs allow st egress) iprop)
       (oracle c hist pifs allow iok idump iprop)
+  | CWire loc t pifs allow iprop => Check.verdict true (forallb (wire_ok_t loc t pifs allow) iprop)
   end.
 
 Definition diag (x : case) : list (option bool) * dump * list (N * option (list N)) :=
@@ -297,6 +349,7 @@ Definition diag (x : case) : list (option bool) * dump * list (N * option (list 
   | CFilter f hops next allow _ _ => ([Some (filter_apply f hops); Some (filter_loop hops next allow)], [], [])
   | CHist c hist pifs allow egress _ _ _ =>
     let st := run c hist in (oks c [] hist, dump_of st, propagate pifs allow st egress)
+  | CWire _ _ _ _ _ => ([], [], [])
   end.
 
 End BeaconPolicy.
